@@ -59,7 +59,9 @@ func (c *vListClient) List(ctx context.Context, _ metav1.ListOptions) (runtime.O
 	}
 }
 
-func VerifC13_Lister() {
+func VerifC13_Lister() { vListerCycle("C13") }
+
+func vListerCycle(P string) {
 	cycles := zzverif.Param("CYCLES", 3)
 	cl := newListClient()
 	stop := make(chan struct{})
@@ -75,25 +77,25 @@ func VerifC13_Lister() {
 		cl.release <- vListReply{obj: &corev1.PodList{}}
 		start := <-cl.starts
 		if consumed {
-			zzverif.Assert(start >= consumedAt+vPeriod, "C13/not-before-timer")
-			zzverif.Reach("C13/relisted")
+			zzverif.Assert(start >= consumedAt+vPeriod, P+"/not-before-timer")
+			zzverif.Reach(P+"/relisted")
 		}
 		// a lower bound of the consumption time: the clock read just before consuming
 		before := zzverif.Now()
 		r := <-l.Result()
-		zzverif.Assert(r.err == nil, "C13/result")
+		zzverif.Assert(r.err == nil, P+"/result")
 		consumedAt, consumed = before, true
 	}
 	// shutdown at this point of the list/tick cycle (the schedule decides how far the next cycle got)
 	if zzverif.NondetInt("shutdown", 0, 1) == 1 {
 		close(stop)
 		zzverif.Quiesce()
-		zzverif.Assert(vClosed(l.Done()), "C13/prompt-shutdown")
-		zzverif.Assert(zzverif.LiveLibGoroutines() == 0, "C13/prompt-shutdown/goroutines-exit")
-		zzverif.Reach("C13/shutdown")
+		zzverif.Assert(vClosed(l.Done()), P+"/prompt-shutdown")
+		zzverif.Assert(zzverif.LiveLibGoroutines() == 0, P+"/prompt-shutdown/goroutines-exit")
+		zzverif.Reach(P+"/shutdown")
 		return
 	}
 	zzverif.Quiesce()
-	zzverif.Assert(!vClosed(l.Done()), "C13/keeps-listing/alive")
-	zzverif.Reach("C13/running")
+	zzverif.Assert(!vClosed(l.Done()), P+"/keeps-listing/alive")
+	zzverif.Reach(P+"/running")
 }
